@@ -235,4 +235,42 @@ theorem untilBlank_roundtrip_eof {α β} (pad : Str → Str) (stop : Str → Boo
     rw [hrd (as.map enc).flatten]
     simp only [List.drop_left, ih (fun b hb => hrt b (List.mem_cons_of_mem _ hb))]
 
+
+/-! ### lines until a blank line or a section keyword (PARAM's further default initial conditions) -/
+
+/-- one continuation line: not blank, not a keyword line, and its values (trailing `None`s trimmed) are `row` -/
+def LineRT (r : Gen.Sections.Rec) (kws : List Str) (l : Str) (row : List Val) : Prop :=
+  isBlank (padstring l) = false ∧ kws.any (startsWith (padstring l)) = false ∧
+    ∃ vs, readValues .default r (padstring l) = .ok vs ∧ trimTrailingNones vs = row
+
+/-- how the continuation lines end: a blank line (consumed), a keyword line (handed back padded), or the end of
+    the file -/
+inductive KwEnd (kws : List Str) : List Str → Option Str → List Str → Prop where
+  | blank (t : Str) (rest : List Str) (h : isBlank (padstring t) = true) : KwEnd kws (t :: rest) none rest
+  | keyword (t : Str) (rest : List Str) (h1 : isBlank (padstring t) = false)
+      (h2 : kws.any (startsWith (padstring t)) = true) : KwEnd kws (t :: rest) (some (padstring t)) rest
+  | eof : KwEnd kws [] none []
+
+/-- **untilKeyword_roundtrip**: the continuation lines are read one for one until the blank line / keyword line /
+    end of file, and a keyword line is handed back to the caller -/
+theorem untilKeyword_roundtrip (r : Gen.Sections.Rec) (kws : List Str) :
+    ∀ (lines : List Str) (rows : List (List Val)), All2 (LineRT r kws) lines rows →
+    ∀ (tail : List Str) (nxt : Option Str) (rest : List Str), KwEnd kws tail nxt rest →
+      untilKeyword .default r kws (lines ++ tail) = .ok (rows.flatten, nxt, rest) := by
+  intro lines rows h
+  induction h with
+  | nil =>
+    intro tail nxt rest hend
+    cases hend with
+    | blank t rest hb => simp only [List.nil_append, untilKeyword, hb, if_true, List.flatten_nil]
+    | keyword t rest h1 h2 =>
+      simp only [List.nil_append, untilKeyword, h1, h2, Bool.false_eq_true, if_false, if_true, List.flatten_nil]
+    | eof => simp only [List.nil_append, untilKeyword, List.flatten_nil]
+  | cons hl _ ih =>
+    rename_i l row ls rs
+    intro tail nxt rest hend
+    obtain ⟨hnb, hnk, vs, hrd, htrim⟩ := hl
+    simp only [List.cons_append, untilKeyword, hnb, hnk, Bool.false_eq_true, if_false, hrd, ih tail nxt rest hend,
+      List.flatten_cons, htrim]
+
 end Proofs.T2
